@@ -62,6 +62,8 @@ class UnitSpec:
 
     def _build_odxlinks(self) -> Dict[OdxLinkId, Any]:
         odxlinks: Dict[OdxLinkId, Any] = {}
+        if self.admin_data is not None:
+            odxlinks.update(self.admin_data._build_odxlinks())
         for unit in self.units:
             odxlinks.update(unit._build_odxlinks())
         for dim in self.physical_dimensions:
@@ -72,6 +74,8 @@ class UnitSpec:
         return odxlinks
 
     def _resolve_odxlinks(self, odxlinks: OdxLinkDatabase) -> None:
+        if self.admin_data is not None:
+            self.admin_data._resolve_odxlinks(odxlinks)
         for unit in self.units:
             unit._resolve_odxlinks(odxlinks)
         for group in self.unit_groups:
@@ -80,6 +84,8 @@ class UnitSpec:
             sdg._resolve_odxlinks(odxlinks)
 
     def _resolve_snrefs(self, context: SnRefContext) -> None:
+        if self.admin_data is not None:
+            self.admin_data._resolve_snrefs(context)
         for unit in self.units:
             unit._resolve_snrefs(context)
         for group in self.unit_groups:
